@@ -53,12 +53,16 @@ def rewrite_event(ctx, py: PyRepo):
             continue
         M = matches[0]
         lhs, rhs = ('sub', M, ('const', 1)), ('sub', M, ('const', 2))
+
+        def same_component(v, k):
+            # match[k] by indexing or by unpacking `_, lhs, rhs = match`
+            return v in (('sub', M, ('const', k)), ('item', M, k), ('item', M, k - 3))
         # guard: lhs == current configuration, raising otherwise
         cur_attr = ('attr', SELF, '_curr_config')
         cur_prop = ('attr', SELF, 'current_configuration')
         guard_idx = None
         for k, (c, b) in enumerate(p.conds):
-            if b is True and c[0] == 'cmp' and c[1] == '==' and {c[2], c[3]} in ({lhs, cur_attr}, {lhs, cur_prop}):
+            if b is True and c[0] == 'cmp' and c[1] == '==' and any(same_component(x, 1) and y in (cur_attr, cur_prop) for x, y in ((c[2], c[3]), (c[3], c[2]))):
                 guard_idx = k
         ctx.ob('rewrite-typestate', f'lhs-equals-current-configuration/path{i}', guard_idx is not None,
                'a step is accepted without requiring <lhs of the instantiated rule> == <current configuration>', where,
@@ -90,7 +94,7 @@ def rewrite_event(ctx, py: PyRepo):
             ctx.ob('rewrite-typestate', f'claim-is-instantiated-rule/path{i}', effects['claim'][1][2] == (INST,),
                    f'the claim added is {show(effects["claim"][1][2][0]) if effects["claim"][1][2] else None}, not the instantiated rule', where)
         if 'config' in effects:
-            ctx.ob('rewrite-typestate', f'next-configuration-is-rhs/path{i}', effects['config'][1][2] == rhs,
+            ctx.ob('rewrite-typestate', f'next-configuration-is-rhs/path{i}', same_component(effects['config'][1][2], 2),
                    f'the configuration is advanced to {show(effects["config"][1][2])}, not to the right-hand side of the instantiated rule', where)
         if 'proof' in effects:
             pv = effects['proof'][1][2][0] if effects['proof'][1][2] else None
@@ -152,7 +156,8 @@ def conversion_scope(ctx, py: PyRepo):
                 other = args[0][3] if args[0][2] == ln else args[0][2]
                 return (v[1][1], show(other))
             return None
-        rets = [p for p in PyEval().paths(fn) if p.end[0] == 'return'] if ok else []
+        from ..core.pyfacts import self_method_resolver
+        rets = [p for p in PyEval(resolver=self_method_resolver(py, ci, SELF, only_private=True)).paths(fn) if p.end[0] == 'return'] if ok else []
         ok = ok and bool(rets)
         for p in rets:
             rv = p.end[1]
@@ -331,6 +336,7 @@ def trace_pairs(ctx, py: PyRepo):
     loop that turns the trace into rewrite steps must therefore look at EVERY adjacent pair (i, i+1); decided by evaluating the loop
     header over four abstract trace entries (core/iterspace.py)."""
     from ..core import iterspace as IS
+    IS.set_k(9 if ctx.tier == 'thorough' else 4)
     from .c16 import inline_locals
     mod = 'k.kore_convertion.rewrite_steps'
     mi = py.modules.get(mod)
